@@ -64,6 +64,11 @@ class ConcatenatedDrillhole(ConcatenatedObject, Drillhole):
 
         return attributes, property_group
 
+    def _group_and_data_names(self) -> list[str]:
+        """Names of the property groups and data currently on the drillhole."""
+        groups = self.property_groups if self.property_groups is not None else []
+        return [group.name for group in groups] + self.get_data_list()
+
     @property
     def depth_(self) -> list[Data]:
         obj_list = []
@@ -228,6 +233,11 @@ class ConcatenatedDrillhole(ConcatenatedObject, Drillhole):
         label = ""
         if len(self.depth_) > 0:
             ind = len(self.depth_)
+            # skip indices still in use after an earlier table was removed
+            while f"depth_{ind}" in self._group_and_data_names() or (
+                f"DEPTH({ind})" in self._group_and_data_names()
+            ):
+                ind += 1
             label = f"({ind})"
 
         if property_group is None:
@@ -323,6 +333,11 @@ class ConcatenatedDrillhole(ConcatenatedObject, Drillhole):
             ind = len(
                 list(set(self.from_))
             )  # todo: from_ return the same value x time why?
+            # skip indices still in use after an earlier table was removed
+            while f"Interval_{ind}" in self._group_and_data_names() or (
+                f"FROM({ind})" in self._group_and_data_names()
+            ):
+                ind += 1
             label = f"({ind})"
 
         if property_group is None:
